@@ -1,6 +1,7 @@
 package c15
 
 import (
+	"bytes"
 	"encoding/json"
 	"fmt"
 	"os"
@@ -682,6 +683,59 @@ func peerKeepsAliveCase(expire time.Duration) harness.Case {
 	}}
 }
 
+// malformedTopicCase: floods of messages whose topic is not a 32-byte digest (every length from 0 to
+// 33 and a few longer ones, more copies than the per-sender limit): shed without failing, and
+// nothing of it is held or charged to the sender afterwards.
+func malformedTopicCase(expire time.Duration) harness.Case {
+	return harness.Case{ID: fmt.Sprintf("e%d/malformed-topic-floods", int(expire/time.Second)), Run: func(c *harness.C) {
+		c.Exec(fmt.Sprintf("[c15] e%d malformed topic floods", int(expire/time.Second)))
+		rec := c.Bubble(func() {
+			s := newSim(c, expire)
+			reported := map[string]bool{}
+			s.bad = func(clause, sig, detail string) {
+				if !reported[sig] {
+					reported[sig] = true
+					c.Violation(clause, sig, fmt.Sprintf("expire=%v: %s", expire, detail), map[string]interface{}{"malformed_topics": true, "expire_s": int(expire / time.Second)})
+				}
+			}
+			lens := []int{}
+			for l := 0; l <= 33; l++ {
+				if l != 32 {
+					lens = append(lens, l)
+				}
+			}
+			lens = append(lens, 40, 64, 100)
+			for _, l := range lens {
+				tp := bytes.Repeat([]byte{byte(l + 1)}, l)
+				for k := 0; k < perSender+5; k++ {
+					s.box.HandleMessage(&tss.IncMessage{Data: []byte("x"), Source: 1, MsgType: uint8(tss.MsgTypeMPC), Topic: tp})
+				}
+				s.box.HandleMessage(&tss.IncMessage{Data: []byte("y"), Source: 2, MsgType: uint8(tss.MsgTypeMPC), Topic: tp})
+			}
+			for _, k := range dump.MapKeys(s.box, "pendingMessages") {
+				s.bad("malformed-topics-shed", "c15-malformed-topic-buffered", fmt.Sprintf("messages whose topic is not 32 bytes long are held in the buffer (key %s)", k))
+			}
+			if tf, ok := dump.Field(s.box, "totalInFlightTopicsBySender"); ok {
+				ti := tf.MapRange()
+				for ti.Next() {
+					if ti.Value().Len() > 0 {
+						s.bad("malformed-topics-shed", "c15-malformed-topic-charged", fmt.Sprintf("sender %d is charged with %d topics after sending only malformed ones", ti.Key().Uint(), ti.Value().Len()))
+					}
+				}
+			}
+			// a well-formed message afterwards is buffered and handed over as usual
+			s.recv(1, "A")
+			s.send("A")
+			s.box.Stop()
+		})
+		if rec != nil && !harness.IsLeakPanic(rec) {
+			panic(rec)
+		}
+		c.Add("executions", 1)
+		c.Outcome(fmt.Sprintf("%v|malformed-topic-floods", expire))
+	}}
+}
+
 // histCase: one fixed history (floods, topics that resemble one another).
 func histCase(expire time.Duration, name string, h []op) harness.Case {
 	return harness.Case{ID: fmt.Sprintf("e%d/%s", int(expire/time.Second), name), Run: func(c *harness.C) {
@@ -707,6 +761,13 @@ func gen(c *harness.C) []harness.Case {
 		if json.Unmarshal(c.Replay, &pt) == nil && pt.Peer {
 			return []harness.Case{peerKeepsAliveCase(time.Duration(pt.Expire) * time.Second)}
 		}
+		var mt struct {
+			Mal    bool `json:"malformed_topics"`
+			Expire int  `json:"expire_s"`
+		}
+		if json.Unmarshal(c.Replay, &mt) == nil && mt.Mal {
+			return []harness.Case{malformedTopicCase(time.Duration(mt.Expire) * time.Second)}
+		}
 		return []harness.Case{bfsCase(2*time.Second, op{K: "tick"}, 1, false)}[:1]
 	}
 	var cases []harness.Case
@@ -717,7 +778,7 @@ func gen(c *harness.C) []harness.Case {
 		for _, n := range []int{2, 3, 5} {
 			cases = append(cases, sharingCase(e, n))
 		}
-		cases = append(cases, peerKeepsAliveCase(e))
+		cases = append(cases, peerKeepsAliveCase(e), malformedTopicCase(e))
 		// floods far beyond the limit (counters of any width must not come round again)
 		floods := []int{255, 256, 257, 358, 513, 1000}
 		if c.Thorough() {
